@@ -23,7 +23,7 @@ func init() {
 			"a segment never contains {{ {% {#, never ends with '{' before a tag, and never ends with a backslash directly before a tag (the engine's \\{{ escape is a different construct)",
 			"no dash modifiers here (C13); verbatim output need not equal the body bytes (only inertness is stated)",
 		},
-		quick: 2048 + 60000, thorough: 2048 + 131072 + 600000, minQuick: 20000, minThorough: 100000,
+		quick: 272 + 2048 + 60000, thorough: 272 + 2048 + 131072 + 600000, minQuick: 20000, minThorough: 100000,
 	}})
 }
 
@@ -78,7 +78,7 @@ func c04Ctx() map[string]interface{} {
 func c04Segment(r *core.Rand) string {
 	n := []int{0, 1, 1, 2, 3, 5, 8, 20, 60, 300}[r.Intn(10)]
 	var b strings.Builder
-	pool := []string{"{", "}", "%", "#", "}}", "%}", "#}", "\"", "'", "\\", "\r\n", "\n", "\r", "\t", " ", "\x00", "\xff", "\xc3", "\xe2\x82", "é", "日本", "😀", "<b>", "&amp;", "-", "--", "{ {", "{ %", "$", "`", "|", "~", "text", "if", "endif", "{{"[:1]}
+	pool := []string{"{", "}", "%", "#", "}}", "%}", "#}", "\"", "'", "\\", "\r\n", "\n", "\r", "\t", " ", "\x00", "\xff", "\xc3", "\xe2\x82", "é", "日本", "😀", "<b>", "&amp;", "-", "--", "{ {", "{ %", "$", "`", "|", "~", "text", "if", "endif", "{{"[:1], "\ufeff", "\u200b", "\u2028", "\u00a0", "\xef\xbb", "\u0085", "\x1a", "\x7f"}
 	for i := 0; i < n; i++ {
 		switch r.Intn(4) {
 		case 0:
@@ -123,6 +123,32 @@ func (p *c04) checkExact(rec *core.Recorder, class, src, want string, nontrivial
 func (p *c04) Run(rec *core.Recorder, seed uint64, idx int, tier string) {
 	r := core.NewRand("C04", seed, idx)
 	tagKinds := []c04Tag{{"{{ v0 }}", "V0v"}, {"{% if yes %}Y{% endif %}", "Y"}, {"{# c #}", ""}, {"{##}", ""}}
+	// ---- grid 0: things a file can begin or end with (byte-order marks, partial marks, zero-width characters, shebang and
+	// XML prologues, NUL, line ends), at the very start and the very end of small and large sources
+	edges := []string{"\ufeff", "\ufeff\ufeff", "\xef\xbb", "\xff\xfe", "\xfe\xff", "\u200b", "#!/usr/bin/twig\n", "<?xml version=\"1.0\"?>", "\x00", "\r\n", "\n\n", " \t", "\\", "}", "%", "\x1a", "\u2028"}
+	if idx < len(edges)*4*2*2 {
+		e := edges[idx%len(edges)]
+		tk := tagKinds[idx/len(edges)%4]
+		large := idx/(len(edges)*4)%2 == 1
+		atEnd := idx/(len(edges)*8) == 1
+		mid := "mid"
+		if large {
+			mid = strings.Repeat("filler text with a few words. ", 150)
+		}
+		src, want := e+tk.src+mid+"z", e+tk.val+mid+"z"
+		if atEnd {
+			src, want = "a"+mid+tk.src+e, "a"+mid+tk.val+e
+			if strings.HasSuffix(tk.src, "}") && (strings.HasPrefix(e, "}") || strings.HasPrefix(e, "%")) {
+				return
+			}
+		}
+		if c04BadSegment(e, !atEnd) {
+			return
+		}
+		p.checkExact(rec, "edges", src, want, true)
+		return
+	}
+	idx -= len(edges) * 4 * 2 * 2
 	// ---- grid 1: every byte before / after each tag kind
 	if idx < 2048 {
 		b := string([]byte{byte(idx % 256)})
